@@ -662,7 +662,8 @@ func statTol(kind string, xs []float64, exp float64) float64 {
 		}
 		return floor + 1e-300
 	}
-	kappa := math.Sqrt(1 + mean*mean/v)
+	r := mean / math.Sqrt(v) // (not mean*mean/v: the square of a huge mean overflows)
+	kappa := math.Sqrt(1 + r*r)
 	rel := 1e-9 + 1e-14*n*kappa
 	if kind == "Std" {
 		return math.Abs(exp)*rel + math.Sqrt(floor) + 1e-300
@@ -900,7 +901,7 @@ func checkC05(c *core.Ctx) {
 					if math.IsInf(exp, 0) || math.IsNaN(exp) {
 						continue // the defined statistic itself is not finite
 					}
-					if tol := statTol(k, smallPart(md.name, x.V), exp); math.IsNaN(got) || math.Abs(got-exp) > tol {
+					if tol := statTol(k, smallPart(md.name, x.V), exp); math.IsNaN(got) || math.IsInf(got, 0) || math.Abs(got-exp) > tol {
 						return core.Fail("%s() of %v = %v, expected %v (tolerance %.3g)", k, shortT(x), got, exp, tol)
 					}
 				}
@@ -930,7 +931,7 @@ func checkC05(c *core.Ctx) {
 							if math.IsInf(exp.V[ro], 0) || math.IsNaN(exp.V[ro]) {
 								return
 							}
-							if tol := statTol(ref.StatKind(k), smallPart(md.name, buf), exp.V[ro]); bad == "" && (math.IsNaN(g.V[ro]) || math.Abs(g.V[ro]-exp.V[ro]) > tol) {
+							if tol := statTol(ref.StatKind(k), smallPart(md.name, buf), exp.V[ro]); bad == "" && (math.IsNaN(g.V[ro]) || math.IsInf(g.V[ro], 0) || math.Abs(g.V[ro]-exp.V[ro]) > tol) {
 								bad = fmt.Sprintf("fibre %d %v: got %v, expected %v (tolerance %.3g)", ro, buf, g.V[ro], exp.V[ro], tol)
 							}
 						})
